@@ -87,7 +87,8 @@ package ast
 //@   | && (forall c *RecoveryExpr :: {c.Expr} c != nil ==> IsExpr(c.Expr))
 //@   | && (forall c *RecoveryExpr :: {c.RecoverExpr} c != nil ==> IsExpr(c.RecoverExpr))
 //@   | && (forall c *RuleRefExpr :: {c.Name} c != nil ==> c.Name != nil)
-//@   | && (forall c *Rule :: {c.Expr} c != nil ==> IsExpr(c.Expr) && c.Name != nil)
+//@   | && (forall c *Rule :: {c.Expr} c != nil ==> IsExpr(c.Expr))
+//@   | && (forall c *Rule :: {c.Name} c != nil ==> c.Name != nil)
 //@   | && (forall c *Grammar, k int :: {c.Rules[k]} c != nil && 0 <= k && k < len(c.Rules) ==> c.Rules[k] != nil)
 
 // ---- interface method contracts (every implementation is verified against the same clauses) ----
